@@ -14,7 +14,7 @@ VERIF = os.path.dirname(os.path.dirname(os.path.abspath(__file__)))
 MATHLIB = os.environ.get("VF_MATHLIB", "/opt/veriftools/mathlib4")
 STD_AXIOMS = {"propext", "Classical.choice", "Quot.sound"}
 
-SOURCE = {"C08": ("Estimators.lean", False)}      # default: ("Marginals.lean", True = append the generated contract links)
+SOURCE = {"C08": ("Estimators.lean", False), "C09": ("Metrics.lean", False), "C10": ("Metrics.lean", False)}      # default: ("Marginals.lean", True = append the generated contract links)
 
 THEOREMS = {
     "C01": [("sum_bool_exp", "sum over all bit strings of exp(sum_j h_j x_j) == prod_j (1 + exp x_j), every n"),
@@ -26,6 +26,11 @@ THEOREMS = {
             ("sigmaX_local_estimator", "sum_sigma |psi(sigma)|^2 Re(psi(sigma^i)/psi(sigma)) == Re <psi| X_i |psi>, every number of sites"),
             ("sigmaY_local_estimator", "the same for Y_i with the coefficient i*(+-1) that SigmaY.apply multiplies by"),
             ("sigmaX_site_average", "the |psi|^2-weighted sum of SigmaX.apply's per-sample value == (1/n) sum_i Re <psi| X_i |psi>")],
+    "C09": [("swap_estimator", "the |psi|^2 |psi'|^2-weighted sum over pairs of SWAP.apply's per-pair value == Re sum conj psi conj psi' psi(swap) psi(swap') (Tr rho_A^2 written out), every n and region")],
+    "C10": [("kl_nonneg", "Gibbs' inequality: KL(p | q) >= 0 for strictly positive probability vectors of every length"),
+            ("kl_self", "KL(p | p) == 0"),
+            ("fidelity_le", "|<t|psi>|^2 <= <t|t><psi|psi> (pure-state fidelity of normalised states is at most 1), every dimension"),
+            ("fidelity_self", "|<psi|psi>|^2 == <psi|psi>^2 (fidelity of a state with itself is 1 after normalisation)")],
     "C02": [("sum_bool_cexp", "sum over all auxiliary bit strings of exp(sum_a a_a z_a) == prod_a (1 + exp z_a) over the complex numbers, every n"),
             ("exp_pi_eq_sum_over_aux", "exp(sum_a log|w_a| + i sum_a arg w_a) == sum over all auxiliary configurations (partial trace), w_a != 0, every n"),
             ("abs_one_add_cexp", "|1 + exp(x + i phi)| == sqrt(1 + 2 e^x cos phi + e^2x)  (the real part DensityMatrix.pi computes per auxiliary unit)"),
